@@ -121,7 +121,7 @@ def kat_prop(prop, extra_quick=(), extra_thorough=()):
             for fam in ("gift_cipher::", "speck_cipher::", "threefish::Threefish256", "threefish::Threefish512"):
                 q.append(J(tgt, "kat", ["--prop", prop, "--filter", fam, "--routes", "new,new_with_tweak_u64"] + extra, nshards=1, scale=0.0002, timeout=2400))
     # thorough native volume: a multiple of the 30k keys per type/route of the base budget
-    ts = {"C05": 16.0, "C06": 16.0, "C08": 16.0, "C09": 12.0, "C07": 4.0}.get(prop, 1.0)
+    ts = {"C05": 40.0, "C06": 48.0, "C08": 40.0, "C09": 32.0, "C07": 8.0}.get(prop, 1.0)
     t = [J("dev", "kat", ["--prop", prop], nshards=16, scale=ts), J("rel", "kat", ["--prop", prop], nshards=16, scale=ts),
          J("devfast", "kat", ["--prop", prop], nshards=16, scale=ts),
          J("miri-x64", "kat", ["--prop", prop, "--no-shadow", "--sample-mod", "4"], nshards=4, scale=0.0004, timeout=3000),
@@ -312,7 +312,7 @@ PROPS["C11"] = {
               J("miri-s390x", "keylen", ["--sample-mod", "8"], nshards=4, scale=0.01, timeout=2400),
               # every type's constructor pairs (new vs new_from_slice, padded forms) on the big-endian target
               J("miri-s390x", "keylen", ["--equiv-only"], nshards=6, scale=0.01, timeout=2400)],
-    "thorough": [J("dev", "keylen", nshards=16, scale=8.0), J("rel", "keylen", nshards=16, scale=8.0), J("devfast", "keylen", nshards=16, scale=8.0), J("soft", "keylen", nshards=8, scale=4.0),
+    "thorough": [J("dev", "keylen", nshards=16, scale=30.0), J("rel", "keylen", nshards=16, scale=30.0), J("devfast", "keylen", nshards=16, scale=30.0), J("soft", "keylen", nshards=8, scale=10.0),
                  J("miri-x64", "keylen", ["--no-shadow", "--sample-mod", "4"], nshards=4, scale=0.01, timeout=3000),
                  J("miri-i686", "keylen", ["--no-shadow", "--sample-mod", "4"], nshards=4, scale=0.01, timeout=3000),
                  J("miri-s390x", "keylen", ["--sample-mod", "4"], nshards=4, scale=0.01, timeout=3000)],
@@ -350,7 +350,7 @@ PROPS["C13"] = {
     "quick": [J("dev", "weak", nshards=4), J("rel", "weak", nshards=2), J("soft", "weak", ["--no-shadow"], nshards=2),
               J("miri-x64", "weak", ["--no-shadow", "--sample-mod", "16"], nshards=2, scale=0.002, timeout=2400),
               J("miri-s390x", "weak", ["--filter", "des::"], nshards=3, scale=0.002, timeout=2400)],
-    "thorough": [J("dev", "weak", nshards=16, scale=16.0), J("rel", "weak", nshards=16, scale=16.0), J("soft", "weak", nshards=8, scale=6.0),
+    "thorough": [J("dev", "weak", nshards=16, scale=40.0), J("rel", "weak", nshards=16, scale=40.0), J("soft", "weak", nshards=8, scale=12.0),
                  J("miri-x64", "weak", ["--no-shadow", "--sample-mod", "4"], nshards=4, scale=0.0005, timeout=3000),
                  J("miri-s390x", "weak", ["--sample-mod", "4"], nshards=4, scale=0.0005, timeout=3000)],
     "rule": ("keys per type: AES every single-bit and single-zero-bit key, upper-half-zero with class-generated lower half, neighbours; DES the 64 NIST keys "
@@ -366,7 +366,7 @@ PROPS["C13"] = {
 PROPS["C14"] = {
     "quick": [J("dev", "bcrypt", nshards=4), J("rel", "bcrypt", nshards=4),
               J("miri-s390x", "bcrypt", nshards=4, scale=0.0002, timeout=2400)],
-    "thorough": [J("dev", "bcrypt", nshards=8), J("rel", "bcrypt", nshards=8), J("devfast", "bcrypt", nshards=8),
+    "thorough": [J("dev", "bcrypt", nshards=16, scale=12.0), J("rel", "bcrypt", nshards=16, scale=12.0), J("devfast", "bcrypt", nshards=16, scale=12.0),
                  J("asan", "bcrypt", nshards=2, scale=0.1),
                  J("miri-x64", "bcrypt", nshards=2, scale=0.0003, timeout=3000),
                  J("miri-s390x", "bcrypt", nshards=8, scale=0.0003, timeout=3000)],
@@ -409,7 +409,7 @@ PROPS["C16"] = {
     "quick": [J("dev", "zeroize", nshards=8), J("rel", "zeroize", nshards=8), J("dev", "zeroize", detect="off", nshards=8),
               J("soft", "zeroize", ["--no-shadow"], nshards=4), J("compact", "zeroize", ["--no-shadow"], nshards=4),
               J("tf-nocipher", "tfmon")],
-    "thorough": [J(c, "zeroize", nshards=16, scale=4.0) for c in ("dev", "rel", "devfast", "soft", "compact", "static-ni")] +
+    "thorough": [J(c, "zeroize", nshards=16, scale=8.0) for c in ("dev", "rel", "devfast", "soft", "compact", "static-ni")] +
                 [J("dev", "zeroize", detect="off", nshards=8), J("rel", "zeroize", detect="off", nshards=8),
                  J("compact-auto", "zeroize", detect="off", nshards=8), J("asan", "zeroize", nshards=8, scale=0.5), J("tf-nocipher", "tfmon"),
                  J("asan", "zeroize", detect="off", nshards=8, scale=0.5)],
@@ -428,7 +428,7 @@ PROPS["C17"] = {
               J("soft", "hazmat", nshards=2), J("compact", "hazmat", nshards=2), J("asan", "hazmat", scale=0.2),
               J("miri-x64", "hazmat", ["--no-shadow"], nshards=2, scale=0.003, timeout=2400),
               J("miri-s390x", "hazmat", nshards=2, scale=0.001, timeout=2400)],
-    "thorough": [J(c, "hazmat", nshards=16, scale=5.0) for c in ("dev", "rel", "soft", "compact", "static-ni")] +
+    "thorough": [J(c, "hazmat", nshards=16, scale=20.0) for c in ("dev", "rel", "soft", "compact", "static-ni")] +
                 [J("dev", "hazmat", detect="off", nshards=8), J("compact-auto", "hazmat", detect="off", nshards=4), J("asan", "hazmat", nshards=4),
                  J("vg", "hazmat", scale=0.01, timeout=3000),
                  J("miri-x64", "hazmat", ["--no-shadow"], nshards=4, scale=0.0002, timeout=3000),
